@@ -14,7 +14,7 @@ def read_all(arg: str, extra: int = 2):
     """-> (ok, [[eof, line text, line number]...]) : every line, then `extra` end-of-file tokens"""
     try:
         sc = TokenScanner(arg)
-    except OSError as e:
+    except Exception as e:  # noqa: BLE001 -- whatever the constructor raises is an observation (the specification knows "cannot be opened" only for a directory)
         return False, type(e).__name__
     out, eofs = [], 0
     while eofs < extra and len(out) < 1000:
